@@ -81,9 +81,13 @@ theorem take_append_replicate (X : List Bool) (m len : Nat) (h1 : X.length ≤ l
 
 theorem bytes_split_last (bs : List UInt8) (hne : bs ≠ []) :
     bs = bs.dropLast ++ [bs.getLastD 0] := by
-  have h := (List.dropLast_concat_getLast hne).symm
-  rw [List.getLast_eq_getLastD 0] at h
-  exact h
+  cases bs with
+  | nil => exact absurd rfl hne
+  | cons a l =>
+    have h := (List.dropLast_concat_getLast hne).symm
+    rw [List.getLast_eq_getLastD] at h
+    rw [List.getLastD_cons]
+    exact h
 
 /-- bitvector: padding bits zero ⇒ canonical -/
 theorem bitvec_canon (bs : List UInt8) (len : Nat) (hne : bs ≠ [])
@@ -139,7 +143,890 @@ theorem bitlist_canon (bs : List UInt8) (hne : bs ≠ [])
   apply canon_of_pad bs _ (8 - (i + 1))
   · rw [hbits]
     congr 2
-    rw [← hX, List.append_assoc, List.append_assoc, List.take_left]
+    have ht : ∀ (X R : List Bool), (X ++ [true] ++ R).take X.length = X := by
+      intro X R; rw [List.append_assoc, List.take_left]
+    rw [← hX, ht]
   · omega
+
+/-! ## the soundness statement -/
+
+/-- a decoder `dec` is sound for type `t` -/
+def DecSound (t : Ty) (dec : Dec) : Prop :=
+  ∀ (s : Stream) (scope : Nat) (v : Val) (rest : Stream), scope ≤ s.length →
+    dec s scope = some (v, rest) →
+    WT t v = true ∧ serialize t v = s.take scope ∧ rest = s.drop scope
+
+/-! ## non-composite kinds -/
+
+theorem sound_uint (nb : Nat) : DecSound (.uint nb) (deser (.uint nb)) := by
+  intro s scope v rest hs h
+  simp only [deser] at h
+  split at h
+  · cases h
+  · next hc =>
+    have : nb = scope := by simpa using hc
+    subst this
+    cases h
+    have hl : (s.take nb).length = nb := List.length_take_of_le hs
+    refine ⟨?_, ?_, rfl⟩
+    · simp only [WT]
+      have := fromLE_lt' (s.take nb)
+      rw [hl] at this
+      simpa using this
+    · simp only [serialize]
+      have := toLE_fromLE (s.take nb)
+      rwa [hl] at this
+
+theorem sound_bool : DecSound .bool (deser .bool) := by
+  intro s scope v rest hs h
+  simp only [deser] at h
+  split at h
+  · cases h
+  · next hc =>
+    have : 1 = scope := by simpa using hc
+    subst this
+    split at h
+    · next h1 =>
+      cases h
+      have h1' : s.take 1 = [1] := by simpa using h1
+      refine ⟨by simp [WT], ?_, rfl⟩
+      rw [h1']; rfl
+    · split at h
+      · next h0 =>
+        cases h
+        have h0' : s.take 1 = [0] := by simpa using h0
+        refine ⟨by simp [WT], ?_, rfl⟩
+        rw [h0']; rfl
+      · cases h
+
+theorem sound_bytevector (len : Nat) : DecSound (.bytevector len) (deser (.bytevector len)) := by
+  intro s scope v rest hs h
+  simp only [deser] at h
+  split at h
+  · cases h
+  · next hc =>
+    have : len = scope := by simpa using hc
+    subst this
+    split at h
+    · cases h
+    · cases h
+      have hl : (s.take len).length = len := List.length_take_of_le hs
+      exact ⟨by simp [WT, hl], by simp [serialize], rfl⟩
+
+theorem sound_bytelist (lim : Nat) : DecSound (.bytelist lim) (deser (.bytelist lim)) := by
+  intro s scope v rest hs h
+  simp only [deser] at h
+  split at h
+  · cases h
+  · next hc =>
+    cases h
+    refine ⟨?_, by simp [serialize], rfl⟩
+    simp only [WT, decide_eq_true_eq]
+    omega
+
+theorem sound_bitvector (len : Nat) : DecSound (.bitvector len) (deser (.bitvector len)) := by
+  intro s scope v rest hs h
+  simp only [deser] at h
+  split at h
+  · cases h
+  · next hc =>
+    have hsc : scope = (len + 7) / 8 := by simpa using hc
+    split at h
+    · cases h
+    · next hc2 =>
+      split at h
+      · cases h
+      · next hc3 =>
+        cases h
+        have hl : (s.take scope).length = scope := List.length_take_of_le hs
+        have h0 : scope ≠ 0 := by
+          intro h0; simp [h0] at hc2
+        have hne : s.take scope ≠ [] := by
+          intro hn; rw [hn] at hl; simp at hl; omega
+        refine ⟨?_, ?_, rfl⟩
+        · simp only [WT, List.length_take, bytesToBits_length, hl, beq_iff_eq]
+          omega
+        · simp only [serialize]
+          apply bitvec_canon _ _ hne
+          · rw [hl, hsc]
+          · rw [hl]; omega
+
+theorem sound_bitlist (lim : Nat) : DecSound (.bitlist lim) (deser (.bitlist lim)) := by
+  intro s scope v rest hs h
+  simp only [deser] at h
+  split at h
+  · cases h
+  · next hc1 =>
+    split at h
+    · cases h
+    · split at h
+      · cases h
+      · split at h
+        · cases h
+        · next hlast =>
+          split at h
+          · cases h
+          · next hlim =>
+            cases h
+            have hl : (s.take scope).length = scope := List.length_take_of_le hs
+            have hne : s.take scope ≠ [] := by
+              intro hn; rw [hn] at hl; simp at hl; omega
+            refine ⟨?_, ?_, rfl⟩
+            · simp only [WT, List.length_take, decide_eq_true_eq]
+              omega
+            · simp only [serialize]
+              have := bitlist_canon (s.take scope) hne hlast
+              rw [hl] at this
+              exact this
+
+/-! ## helper loops -/
+
+theorem fixedSection_map_true (f : Val → List UInt8) (vs : List Val) (off : Nat) :
+    fixedSection (vs.map fun v => (true, f v)) off = (vs.map f).flatten := by
+  induction vs with
+  | nil => rfl
+  | cons v vs ih => simp [fixedSection, ih]
+
+theorem varSection_map_true (f : Val → List UInt8) (vs : List Val) :
+    varSection (vs.map fun v => (true, f v)) = [] := by
+  induction vs with
+  | nil => rfl
+  | cons v vs ih => simp [varSection, ih]
+
+theorem fixedTotal_map_false (f : Val → List UInt8) (vs : List Val) :
+    fixedTotal (vs.map fun v => (false, f v)) = 4 * vs.length := by
+  induction vs with
+  | nil => rfl
+  | cons v vs ih => simp only [List.map_cons, fixedTotal, ih, List.length_cons]; omega
+
+theorem deserFixedN_sound (t : Ty) (dec : Dec) (hd : DecSound t dec) (l : Nat) :
+    ∀ (k : Nat) (s : Stream) (vs : List Val) (rest : Stream), k * l ≤ s.length →
+      deserFixedN dec l k s = some (vs, rest) →
+      vs.length = k ∧ vs.all (WT t) = true ∧
+      (vs.map (serialize t)).flatten = s.take (k * l) ∧ rest = s.drop (k * l) := by
+  intro k
+  induction k with
+  | zero =>
+    intro s vs rest _ h
+    simp only [deserFixedN] at h
+    cases h
+    simp
+  | succ k ih =>
+    intro s vs rest hs h
+    simp only [deserFixedN] at h
+    split at h
+    · cases h
+    · next v s1 hv =>
+      split at h
+      · cases h
+      · next vs' s2 hvs =>
+        cases h
+        have hkl : (k + 1) * l = l + k * l := by rw [Nat.succ_mul]; omega
+        obtain ⟨hw, hser, hs1⟩ := hd s l v s1 (by omega) hv
+        subst hs1
+        obtain ⟨hlen, hall, hflat, hrest⟩ :=
+          ih (s.drop l) vs' _ (by rw [List.length_drop]; omega) hvs
+        refine ⟨by simp [hlen], by simp [hw, hall], ?_, ?_⟩
+        · rw [hkl, List.take_add, List.map_cons, List.flatten_cons, hser, hflat]
+        · rw [hkl, hrest, List.drop_drop]
+
+theorem readOffsets_succ (k : Nat) (s : Stream) :
+    readOffsets (k + 1) s
+      = (fromLE (s.take 4) :: (readOffsets k (s.drop 4)).1, (readOffsets k (s.drop 4)).2) := by
+  rfl
+
+theorem readOffsets_spec : ∀ (k : Nat) (s : Stream), 4 * k ≤ s.length →
+    (readOffsets k s).2 = s.drop (4 * k) ∧ (readOffsets k s).1.length = k ∧
+    ((readOffsets k s).1.map (toLE 4)).flatten = s.take (4 * k) := by
+  intro k
+  induction k with
+  | zero => intro s _; simp [readOffsets]
+  | succ k ih =>
+    intro s hs
+    obtain ⟨h1, h2, h3⟩ := ih (s.drop 4) (by rw [List.length_drop]; omega)
+    have h4 : (s.take 4).length = 4 := List.length_take_of_le (by omega)
+    have e : 4 * (k + 1) = 4 + 4 * k := by omega
+    rw [readOffsets_succ]
+    refine ⟨?_, by simp [h2], ?_⟩
+    · simp only []
+      rw [h1, e, List.drop_drop]
+    · simp only [List.map_cons, List.flatten_cons]
+      rw [h3, e, List.take_add]
+      congr 1
+      have := toLE_fromLE (s.take 4)
+      rwa [h4] at this
+
+/-- last element of the non-empty list `b :: l` -/
+def lastB : Nat → List Nat → Nat
+  | b, [] => b
+  | _, c :: r => lastB c r
+
+/-- `b :: l` without its last element -/
+def initB : Nat → List Nat → List Nat
+  | _, [] => []
+  | b, c :: r => b :: initB c r
+
+theorem lastB_append (b : Nat) (l : List Nat) (x : Nat) : lastB b (l ++ [x]) = x := by
+  induction l generalizing b with
+  | nil => rfl
+  | cons c r ih => simp [lastB, ih]
+
+theorem initB_append (b : Nat) (l : List Nat) (x : Nat) : initB b (l ++ [x]) = b :: l := by
+  induction l generalizing b with
+  | nil => rfl
+  | cons c r ih => simp [initB, ih]
+
+theorem deserVarN_mono (dec : Dec) (emin emax : Nat) :
+    ∀ (bnds : List Nat) (b0 : Nat) (s : Stream) (vs : List Val) (rest : Stream),
+      deserVarN dec emin emax (b0 :: bnds) s = some (vs, rest) → b0 ≤ lastB b0 bnds := by
+  intro bnds
+  induction bnds with
+  | nil => intro b0 s vs rest _; simp [lastB]
+  | cons stop r ih =>
+    intro b0 s vs rest h
+    simp only [deserVarN] at h
+    split at h
+    · cases h
+    · split at h
+      · cases h
+      · split at h
+        · cases h
+        · next v s1 hv =>
+          split at h
+          · cases h
+          · next vs' s2 hrec =>
+            have := ih stop s1 vs' s2 hrec
+            simp only [lastB]
+            omega
+
+theorem deserVarN_sound (t : Ty) (dec : Dec) (hd : DecSound t dec) (emin emax : Nat) :
+    ∀ (bnds : List Nat) (b0 : Nat) (s : Stream) (vs : List Val) (rest : Stream),
+      deserVarN dec emin emax (b0 :: bnds) s = some (vs, rest) →
+      lastB b0 bnds - b0 ≤ s.length →
+      vs.length = bnds.length ∧ vs.all (WT t) = true ∧
+      fixedSection (vs.map fun v => (false, serialize t v)) b0
+        = ((initB b0 bnds).map (toLE 4)).flatten ∧
+      varSection (vs.map fun v => (false, serialize t v)) = s.take (lastB b0 bnds - b0) ∧
+      rest = s.drop (lastB b0 bnds - b0) := by
+  intro bnds
+  induction bnds with
+  | nil =>
+    intro b0 s vs rest h _
+    simp only [deserVarN] at h
+    cases h
+    simp [lastB, initB, fixedSection, varSection]
+  | cons stop r ih =>
+    intro b0 s vs rest h hs
+    simp only [deserVarN] at h
+    split at h
+    · cases h
+    · next hle =>
+      split at h
+      · cases h
+      · split at h
+        · cases h
+        · next v s1 hv =>
+          split at h
+          · cases h
+          · next vs' s2 hrec =>
+            cases h
+            have hm := deserVarN_mono dec emin emax r stop s1 vs' _ hrec
+            simp only [lastB] at hs ⊢
+            generalize hL : lastB stop r = L at hs hm ⊢
+            obtain ⟨hw, hser, hs1⟩ := hd s (stop - b0) v s1 (by omega) hv
+            subst hs1
+            obtain ⟨hlen, hall, hfix, hvar, hrest⟩ :=
+              ih stop (s.drop (stop - b0)) vs' _ hrec (by rw [hL, List.length_drop]; omega)
+            rw [hL] at hvar hrest
+            have hsl : (serialize t v).length = stop - b0 := by
+              rw [hser]; exact List.length_take_of_le (by omega)
+            have e : L - b0 = (stop - b0) + (L - stop) := by omega
+            refine ⟨by simp [hlen], by simp [hw, hall], ?_, ?_, ?_⟩
+            · simp only [List.map_cons, fixedSection, initB, List.flatten_cons, hsl]
+              have : b0 + (stop - b0) = stop := by omega
+              rw [this, hfix]
+            · simp only [List.map_cons, varSection]
+              rw [hser, hvar, e, List.take_add]
+            · rw [hrest, e, List.drop_drop]
+
+theorem deserSeqWith_var_eq (dec : Dec) (l emin emax : Nat) (vc : Nat → Bool) (s : Stream)
+    (scope : Nat) (h0 : ¬ scope = 0) (first : Nat) (hfirst : fromLE (s.take 4) = first)
+    (ro : List Nat × Stream) (hro : readOffsets (first / 4 - 1) (s.drop 4) = ro) :
+    deserSeqWith dec false l emin emax vc s scope =
+      if first > scope then none
+      else if first % 4 != 0 then none
+      else if !vc (first / 4) then none
+      else if first / 4 = 0 then none
+      else (deserVarN dec emin emax (first :: ro.1 ++ [scope]) ro.2).map
+        fun (p : List Val × Stream) => (Val.seq p.1, p.2) := by
+  subst hfirst hro
+  simp [deserSeqWith, h0, readOffset]
+
+theorem deserSeqWith_sound (t : Ty) (dec : Dec) (hd : DecSound t dec) (l emin emax : Nat)
+    (validCount : Nat → Bool) (s : Stream) (scope : Nat) (v : Val) (rest : Stream)
+    (hs : scope ≤ s.length)
+    (h : deserSeqWith dec (isFixed t) l emin emax validCount s scope = some (v, rest)) :
+    ∃ vs, v = .seq vs ∧ validCount vs.length = true ∧ vs.all (WT t) = true ∧
+      interleave (vs.map fun v => (isFixed t, serialize t v)) = s.take scope ∧
+      rest = s.drop scope := by
+  cases hf : isFixed t with
+  | true =>
+    rw [hf] at h
+    unfold deserSeqWith at h
+    simp only [if_true] at h
+    split at h
+    · cases h
+    · next hl0 =>
+      split at h
+      · cases h
+      · next hmod =>
+        have hmod' : scope % l = 0 := by simpa using hmod
+        have hcl : scope / l * l = scope := by
+          have := Nat.div_add_mod scope l
+          rw [hmod', Nat.add_zero, Nat.mul_comm] at this
+          exact this
+        split at h
+        · cases h
+        · next hvc =>
+          cases hdf : deserFixedN dec l (scope / l) s with
+          | none => simp [hdf] at h
+          | some p =>
+            obtain ⟨vs, s'⟩ := p
+            simp only [hdf, Option.map_some, Option.some.injEq, Prod.mk.injEq] at h
+            obtain ⟨rfl, rfl⟩ := h
+            obtain ⟨hlen, hall, hflat, hrest⟩ :=
+              deserFixedN_sound t dec hd l (scope / l) s vs s' (by omega) hdf
+            refine ⟨vs, rfl, ?_, hall, ?_, ?_⟩
+            · rw [hlen]; simpa using hvc
+            · simp only [interleave, fixedSection_map_true, varSection_map_true, List.append_nil]
+              rw [hflat, hcl]
+            · rw [hrest, hcl]
+  | false =>
+    rw [hf] at h
+    by_cases h0 : scope = 0
+    · subst h0
+      simp only [deserSeqWith, Bool.false_eq_true, if_false, if_true] at h
+      split at h
+      · next hvc =>
+        cases h
+        exact ⟨[], rfl, hvc, rfl, by simp [interleave, fixedSection, varSection], by simp⟩
+      · cases h
+    · generalize hfirst : fromLE (s.take 4) = first
+      generalize hro' : readOffsets (first / 4 - 1) (s.drop 4) = ro
+      rw [deserSeqWith_var_eq dec l emin emax validCount s scope h0 first hfirst ro hro'] at h
+      split at h
+      · cases h
+      · next hfs =>
+        split at h
+        · cases h
+        · next hm4 =>
+          split at h
+          · cases h
+          · next hvc =>
+            split at h
+            · cases h
+            · next hc0 =>
+              have hm4' : first % 4 = 0 := by simpa using hm4
+              have hvc' : validCount (first / 4) = true := by simpa using hvc
+              have hfs' : first ≤ scope := by omega
+              have hro := readOffsets_spec (first / 4 - 1) (s.drop 4)
+                (by rw [List.length_drop]; omega)
+              rw [hro'] at hro
+              obtain ⟨more, s2⟩ := ro
+              obtain ⟨hs2, hmlen, hmflat⟩ := hro
+              simp only [List.cons_append] at hs2 hmlen hmflat h
+              cases hdv : deserVarN dec emin emax (first :: (more ++ [scope])) s2 with
+              | none => simp [hdv] at h
+              | some p =>
+                obtain ⟨vs, s'⟩ := p
+                simp only [hdv, Option.map_some, Option.some.injEq, Prod.mk.injEq] at h
+                obtain ⟨rfl, rfl⟩ := h
+                have e1 : 4 + 4 * (first / 4 - 1) = first := by omega
+                have hs2' : s2 = s.drop first := by rw [hs2, List.drop_drop, e1]
+                subst hs2'
+                obtain ⟨hlen, hall, hfix, hvar, hrest⟩ :=
+                  deserVarN_sound t dec hd emin emax (more ++ [scope]) first (s.drop first) vs s'
+                    hdv (by rw [lastB_append, List.length_drop]; omega)
+                rw [lastB_append] at hvar hrest
+                rw [initB_append] at hfix
+                have hvl : vs.length = first / 4 := by
+                  rw [hlen, List.length_append, hmlen]; simp; omega
+                have h4 : (s.take 4).length = 4 := List.length_take_of_le (by omega)
+                have e2 : scope = first + (scope - first) := by omega
+                refine ⟨vs, rfl, by rw [hvl]; exact hvc', hall, ?_, ?_⟩
+                · simp only [interleave, fixedTotal_map_false]
+                  have e3 : 4 * vs.length = first := by rw [hvl]; omega
+                  rw [e3, hfix, hvar, List.map_cons, List.flatten_cons, hmflat]
+                  have ht := toLE_fromLE (s.take 4)
+                  rw [h4, hfirst] at ht
+                  rw [ht, ← List.take_add, e1, ← List.take_add, ← e2]
+                · rw [hrest, List.drop_drop, ← e2]
+
+/-! ## vectors and lists -/
+
+theorem sound_vector (et : Ty) (len : Nat) (hd : DecSound et (deser et)) :
+    DecSound (.vector et len) (deser (.vector et len)) := by
+  intro s scope v rest hs h
+  simp only [deser] at h
+  obtain ⟨vs, rfl, hvc, hall, hint, hrest⟩ :=
+    deserSeqWith_sound et _ hd _ _ _ _ s scope v rest hs h
+  refine ⟨?_, ?_, hrest⟩
+  · simp only [WT, Bool.and_eq_true]
+    exact ⟨hvc, hall⟩
+  · simp only [serialize]; exact hint
+
+theorem sound_list (et : Ty) (lim : Nat) (hd : DecSound et (deser et)) :
+    DecSound (.list et lim) (deser (.list et lim)) := by
+  intro s scope v rest hs h
+  simp only [deser] at h
+  obtain ⟨vs, rfl, hvc, hall, hint, hrest⟩ :=
+    deserSeqWith_sound et _ hd _ _ _ _ s scope v rest hs h
+  refine ⟨?_, ?_, hrest⟩
+  · simp only [WT, Bool.and_eq_true]
+    exact ⟨hvc, hall⟩
+  · simp only [serialize]; exact hint
+
+/-! ## containers -/
+
+theorem deserFixedFields_sound : ∀ (fs : List Ty), (∀ t ∈ fs, DecSound t (deser t)) →
+    allFixed fs = true →
+    ∀ (s : Stream) (vs : List Val) (rest : Stream), fixedLenSum fs ≤ s.length →
+      deserFixedFields fs s = some (vs, rest) →
+      WTs fs vs = true ∧
+      (∀ off, fixedSection (serializeFields fs vs) off = s.take (fixedLenSum fs)) ∧
+      varSection (serializeFields fs vs) = [] ∧ rest = s.drop (fixedLenSum fs) := by
+  intro fs
+  induction fs with
+  | nil =>
+    intro _ _ s vs rest _ h
+    simp only [deserFixedFields] at h
+    cases h
+    simp [WTs, serializeFields, fixedSection, varSection, fixedLenSum]
+  | cons t ts ih =>
+    intro hfs haf s vs rest hs h
+    simp only [allFixed, Bool.and_eq_true] at haf
+    simp only [fixedLenSum] at hs ⊢
+    simp only [deserFixedFields] at h
+    split at h
+    · cases h
+    · next v s1 hv =>
+      split at h
+      · cases h
+      · next vs' s2 hrec =>
+        cases h
+        obtain ⟨hw, hser, hs1⟩ := hfs t (by simp) s (fixedLen t) v s1 (by omega) hv
+        subst hs1
+        obtain ⟨hws, hfix, hvar, hrest⟩ :=
+          ih (fun t' ht' => hfs t' (by simp [ht'])) haf.2 (s.drop (fixedLen t)) vs' _
+            (by rw [List.length_drop]; omega) hrec
+        refine ⟨by simp [WTs, hw, hws], ?_, ?_, ?_⟩
+        · intro off
+          simp only [serializeFields, haf.1, fixedSection]
+          rw [hfix, hser, List.take_add]
+        · simp only [serializeFields, haf.1, varSection]
+          exact hvar
+        · rw [hrest, List.drop_drop]
+
+/-- number of variable-size fields -/
+def nvar : List Ty → Nat
+  | [] => 0
+  | t :: ts => (if isFixed t then 0 else 1) + nvar ts
+
+theorem allFixed_of_nvar : ∀ (fs : List Ty), nvar fs = 0 → allFixed fs = true := by
+  intro fs
+  induction fs with
+  | nil => intro _; rfl
+  | cons t ts ih =>
+    intro h
+    simp only [nvar] at h
+    cases hf : isFixed t with
+    | true => simp only [hf, if_true, Nat.zero_add] at h; simp [allFixed, hf, ih h]
+    | false => simp [hf] at h
+
+theorem initB_length (b : Nat) (l : List Nat) : (initB b l).length = l.length := by
+  induction l generalizing b with
+  | nil => rfl
+  | cons c r ih => simp [initB, ih]
+
+theorem deserScan_offs_length : ∀ (fs : List Ty) (s : Stream) (slots : List (Option Val))
+    (offs : List Nat) (s1 : Stream), deserScan fs s = some (slots, offs, s1) →
+    offs.length = nvar fs := by
+  intro fs
+  induction fs with
+  | nil =>
+    intro s slots offs s1 h
+    simp only [deserScan] at h
+    cases h; rfl
+  | cons t ts ih =>
+    intro s slots offs s1 h
+    cases hf : isFixed t with
+    | true =>
+      simp only [deserScan, hf, if_true] at h
+      split at h
+      · cases h
+      · split at h
+        · cases h
+        · next slots' offs' s2 hrec =>
+          cases h
+          simp [nvar, hf, ih _ _ _ _ hrec]
+    | false =>
+      simp only [deserScan, hf, Bool.false_eq_true, if_false, readOffset] at h
+      split at h
+      · cases h
+      · next slots' offs' s2 hrec =>
+        cases h
+        simp [nvar, hf, ih _ _ _ _ hrec]; omega
+
+theorem deserScan_rest : ∀ (fs : List Ty), (∀ t ∈ fs, DecSound t (deser t)) →
+    ∀ (s : Stream) (slots : List (Option Val)) (offs : List Nat) (s1 : Stream),
+      fixedPartLen fs ≤ s.length → deserScan fs s = some (slots, offs, s1) →
+      s1 = s.drop (fixedPartLen fs) := by
+  intro fs
+  induction fs with
+  | nil =>
+    intro _ s slots offs s1 _ h
+    simp only [deserScan] at h
+    cases h; simp [fixedPartLen]
+  | cons t ts ih =>
+    intro hfs s slots offs s1 hs h
+    have hts : ∀ t' ∈ ts, DecSound t' (deser t') := fun t' ht' => hfs t' (by simp [ht'])
+    cases hf : isFixed t with
+    | true =>
+      simp only [fixedPartLen, hf, if_true] at hs ⊢
+      simp only [deserScan, hf, if_true] at h
+      split at h
+      · cases h
+      · next v sA hv =>
+        split at h
+        · cases h
+        · next slots' offs' s2 hrec =>
+          cases h
+          obtain ⟨_, _, hsA⟩ := hfs t (by simp) s (fixedLen t) v sA (by omega) hv
+          subst hsA
+          rw [ih hts _ _ _ _ (by rw [List.length_drop]; omega) hrec, List.drop_drop]
+    | false =>
+      simp only [fixedPartLen, hf, Bool.false_eq_true, if_false] at hs ⊢
+      simp only [deserScan, hf, Bool.false_eq_true, if_false, readOffset] at h
+      split at h
+      · cases h
+      · next slots' offs' s2 hrec =>
+        cases h
+        rw [ih hts _ _ _ _ (by rw [List.length_drop]; omega) hrec, List.drop_drop]
+
+theorem deserDyn_mono : ∀ (fs : List Ty) (b0 : Nat) (bnds : List Nat) (d : Stream)
+    (dyn : List Val) (d2 : Stream), bnds.length = nvar fs →
+    deserDyn fs (b0 :: bnds) d = some (dyn, d2) → b0 ≤ lastB b0 bnds := by
+  intro fs
+  induction fs with
+  | nil =>
+    intro b0 bnds d dyn d2 hl _
+    cases bnds with
+    | nil => simp [lastB]
+    | cons c r => simp [nvar] at hl
+  | cons t ts ih =>
+    intro b0 bnds d dyn d2 hl h
+    cases hf : isFixed t with
+    | true =>
+      simp only [deserDyn, hf, if_true] at h
+      simp only [nvar, hf, if_true, Nat.zero_add] at hl
+      exact ih b0 bnds d dyn d2 hl h
+    | false =>
+      simp only [nvar, hf, Bool.false_eq_true, if_false] at hl
+      cases bnds with
+      | nil => simp at hl; omega
+      | cons stop r =>
+        simp only [deserDyn, hf, Bool.false_eq_true, if_false] at h
+        split at h
+        · cases h
+        · split at h
+          · cases h
+          · split at h
+            · cases h
+            · split at h
+              · cases h
+              · next vs' s2 hrec =>
+                have := ih stop r _ vs' s2 (by simp at hl; omega) hrec
+                simp only [lastB]
+                omega
+
+/-- both passes of `Container.deserialize` together -/
+theorem container_var_sound : ∀ (fs : List Ty), (∀ t ∈ fs, DecSound t (deser t)) →
+    ∀ (s : Stream) (slots : List (Option Val)) (offs : List Nat) (s1 : Stream) (b0 : Nat)
+      (bnds : List Nat) (d : Stream) (dyn : List Val) (d2 : Stream),
+      deserScan fs s = some (slots, offs, s1) →
+      deserDyn fs (b0 :: bnds) d = some (dyn, d2) →
+      offs = initB b0 bnds →
+      fixedPartLen fs ≤ s.length →
+      lastB b0 bnds - b0 ≤ d.length →
+      WTs fs (mergeSlots slots dyn) = true ∧
+      fixedSection (serializeFields fs (mergeSlots slots dyn)) b0 = s.take (fixedPartLen fs) ∧
+      fixedTotal (serializeFields fs (mergeSlots slots dyn)) = fixedPartLen fs ∧
+      varSection (serializeFields fs (mergeSlots slots dyn)) = d.take (lastB b0 bnds - b0) ∧
+      d2 = d.drop (lastB b0 bnds - b0) := by
+  intro fs
+  induction fs with
+  | nil =>
+    intro _ s slots offs s1 b0 bnds d dyn d2 hscan hdyn hoffs _ _
+    simp only [deserScan] at hscan
+    simp only [deserDyn] at hdyn
+    cases hscan; cases hdyn
+    cases bnds with
+    | cons c r => simp [initB] at hoffs
+    | nil =>
+      simp [mergeSlots, WTs, serializeFields, fixedSection, varSection, fixedTotal, fixedPartLen,
+        lastB]
+  | cons t ts ih =>
+    intro hfs s slots offs s1 b0 bnds d dyn d2 hscan hdyn hoffs hs hd
+    have hts : ∀ t' ∈ ts, DecSound t' (deser t') := fun t' ht' => hfs t' (by simp [ht'])
+    cases hf : isFixed t with
+    | true =>
+      simp only [fixedPartLen, hf, if_true] at hs ⊢
+      simp only [deserScan, hf, if_true] at hscan
+      simp only [deserDyn, hf, if_true] at hdyn
+      split at hscan
+      · cases hscan
+      · next v sA hv =>
+        split at hscan
+        · cases hscan
+        · next slots' offs' s2 hrec =>
+          cases hscan
+          obtain ⟨hw, hser, hsA⟩ := hfs t (by simp) s (fixedLen t) v sA (by omega) hv
+          subst hsA
+          obtain ⟨hws, hfix, htot, hvar, hrest⟩ :=
+            ih hts _ _ _ _ b0 bnds d dyn d2 hrec hdyn hoffs
+              (by rw [List.length_drop]; omega) hd
+          have hsl : (serialize t v).length = fixedLen t := by
+            rw [hser]; exact List.length_take_of_le (by omega)
+          refine ⟨by simp [mergeSlots, WTs, hw, hws], ?_, ?_, ?_, hrest⟩
+          · simp only [mergeSlots, serializeFields, hf, fixedSection]
+            rw [hfix, hser, List.take_add]
+          · simp only [mergeSlots, serializeFields, hf, fixedTotal, hsl, htot]
+          · simp only [mergeSlots, serializeFields, hf, varSection]
+            exact hvar
+    | false =>
+      simp only [fixedPartLen, hf, Bool.false_eq_true, if_false] at hs ⊢
+      simp only [deserScan, hf, Bool.false_eq_true, if_false, readOffset] at hscan
+      split at hscan
+      · cases hscan
+      · next slots' offs' s2 hrec =>
+        cases hscan
+        cases bnds with
+        | nil => simp [initB] at hoffs
+        | cons stop r =>
+          simp only [initB, List.cons.injEq] at hoffs
+          obtain ⟨hb0, hoffs'⟩ := hoffs
+          simp only [deserDyn, hf, Bool.false_eq_true, if_false] at hdyn
+          split at hdyn
+          · cases hdyn
+          · next hle =>
+            split at hdyn
+            · cases hdyn
+            · split at hdyn
+              · cases hdyn
+              · next v dA hv =>
+                split at hdyn
+                · cases hdyn
+                · next dyn' d2' hdrec =>
+                  cases hdyn
+                  have hrl : r.length = nvar ts := by
+                    rw [← deserScan_offs_length _ _ _ _ _ hrec, hoffs', initB_length]
+                  have hm := deserDyn_mono ts stop r dA dyn' _ hrl hdrec
+                  simp only [lastB] at hd ⊢
+                  obtain ⟨hw, hser, hdA⟩ := hfs t (by simp) d (stop - b0) v dA (by omega) hv
+                  subst hdA
+                  obtain ⟨hws, hfix, htot, hvar, hrest⟩ :=
+                    ih hts _ _ _ _ stop r _ dyn' _ hrec hdrec hoffs'
+                      (by rw [List.length_drop]; omega) (by rw [List.length_drop]; omega)
+                  have hsl : (serialize t v).length = stop - b0 := by
+                    rw [hser]; exact List.length_take_of_le (by omega)
+                  have e : lastB stop r - b0 = (stop - b0) + (lastB stop r - stop) := by omega
+                  have h4 : (s.take 4).length = 4 := List.length_take_of_le (by omega)
+                  refine ⟨by simp [mergeSlots, WTs, hw, hws], ?_, ?_, ?_, ?_⟩
+                  · simp only [mergeSlots, serializeFields, hf, fixedSection, hsl]
+                    have e2 : b0 + (stop - b0) = stop := by omega
+                    have ht := toLE_fromLE (s.take 4)
+                    rw [h4, hb0] at ht
+                    rw [e2, hfix, ht, List.take_add]
+                  · simp only [mergeSlots, serializeFields, hf, fixedTotal, htot]
+                  · simp only [mergeSlots, serializeFields, hf, varSection]
+                    rw [hser, hvar, e, List.take_add]
+                  · rw [hrest, e, List.drop_drop]
+
+theorem sound_container (fs : List Ty) (hfs : ∀ t ∈ fs, DecSound t (deser t)) :
+    DecSound (.container fs) (deser (.container fs)) := by
+  intro s scope v rest hs h
+  cases haf : allFixed fs with
+  | true =>
+    simp only [deser, haf, if_true] at h
+    split at h
+    · cases h
+    · next hsc =>
+      have hsc' : scope = fixedLenSum fs := by simpa using hsc
+      subst hsc'
+      cases hdf : deserFixedFields fs s with
+      | none => simp [hdf] at h
+      | some p =>
+        obtain ⟨vs, s'⟩ := p
+        simp only [hdf, Option.map_some, Option.some.injEq, Prod.mk.injEq] at h
+        obtain ⟨rfl, rfl⟩ := h
+        obtain ⟨hws, hfix, hvar, hrest⟩ := deserFixedFields_sound fs hfs haf s vs s' hs hdf
+        refine ⟨by simpa [WT] using hws, ?_, hrest⟩
+        simp only [serialize, interleave, hfix, hvar, List.append_nil]
+  | false =>
+    simp only [deser, haf, Bool.false_eq_true, if_false] at h
+    split at h
+    · cases h
+    · next slots offs s1 hscan =>
+      have hol := deserScan_offs_length _ _ _ _ _ hscan
+      cases offs with
+      | nil =>
+        have := allFixed_of_nvar fs (by rw [← hol]; rfl)
+        rw [haf] at this
+        cases this
+      | cons first offs' =>
+        simp only [List.head?_cons] at h
+        split at h
+        · cases h
+        · next hfirst =>
+          have hfirst' : first = fixedPartLen fs := by simpa using hfirst
+          rw [List.cons_append] at h
+          split at h
+          · cases h
+          · next dyn s2 hdyn =>
+            cases h
+            have hm := deserDyn_mono fs first (offs' ++ [scope]) s1 dyn _
+              (by rw [← hol]; simp) hdyn
+            rw [lastB_append] at hm
+            have hs1 := deserScan_rest fs hfs s slots _ s1 (by omega) hscan
+            subst hs1
+            obtain ⟨hws, hfix, htot, hvar, hrest⟩ :=
+              container_var_sound fs hfs s slots _ _ first (offs' ++ [scope]) _ dyn _ hscan hdyn
+                (by rw [initB_append]) (by omega)
+                (by rw [lastB_append, List.length_drop]; omega)
+            rw [lastB_append] at hvar hrest
+            have e : scope = first + (scope - first) := by omega
+            refine ⟨by simpa [WT] using hws, ?_, ?_⟩
+            · simp only [serialize, interleave, htot]
+              rw [← hfirst', hfix, hvar, ← hfirst', ← List.take_add, ← e]
+            · rw [hrest, ← hfirst', List.drop_drop, ← e]
+
+/-! ## unions -/
+
+theorem deserOpt_sound : ∀ (opts : List Ty), (∀ t ∈ opts, DecSound t (deser t)) →
+    ∀ (k : Nat) (s : Stream) (scope : Nat) (v : Val) (rest : Stream), scope ≤ s.length →
+      deserOpt opts k s scope = some (v, rest) →
+      WTopt opts k v = true ∧ serializeOpt opts k v = s.take scope ∧ rest = s.drop scope := by
+  intro opts
+  induction opts with
+  | nil =>
+    intro _ k s scope v rest _ h
+    simp [deserOpt] at h
+  | cons t ts ih =>
+    intro hfs k s scope v rest hs h
+    cases k with
+    | zero =>
+      simp only [deserOpt] at h
+      simpa only [WTopt, serializeOpt] using hfs t (by simp) s scope v rest hs h
+    | succ k =>
+      simp only [deserOpt] at h
+      simpa only [WTopt, serializeOpt] using
+        ih (fun t' ht' => hfs t' (by simp [ht'])) k s scope v rest hs h
+
+theorem deser_union_eq (hasNone : Bool) (opts : List Ty) (b : UInt8) (s' : Stream) (scope : Nat)
+    (h1 : ¬ scope < 1) (sel : Nat) (hsel : b.toNat = sel) :
+    deser (.union hasNone opts) (b :: s') scope =
+      if sel ≥ optCount hasNone opts then none
+      else if (hasNone && sel == 0) = true then
+        (if scope != 1 then none else some (.un 0 .none, s'))
+      else (deserOpt opts (optIndex hasNone sel) s' (scope - 1)).map
+        fun (p : Val × Stream) => (Val.un sel p.1, p.2) := by
+  subst hsel
+  simp [deser, h1]
+
+theorem sound_union (hasNone : Bool) (opts : List Ty) (hfs : ∀ t ∈ opts, DecSound t (deser t)) :
+    DecSound (.union hasNone opts) (deser (.union hasNone opts)) := by
+  intro s scope v rest hs h
+  by_cases h1 : scope < 1
+  · simp [deser, h1] at h
+  · cases s with
+    | nil => simp at hs; omega
+    | cons b s' =>
+      generalize hsel : b.toNat = sel
+      have hb : b = UInt8.ofNat sel := by rw [← hsel, UInt8.ofNat_toNat]
+      rw [deser_union_eq hasNone opts b s' scope h1 sel hsel] at h
+      obtain ⟨k, rfl⟩ : ∃ k, scope = k + 1 := ⟨scope - 1, by omega⟩
+      simp only [List.length_cons, Nat.add_le_add_iff_right] at hs
+      simp only [List.take_succ_cons, List.drop_succ_cons, Nat.add_sub_cancel] at h ⊢
+      split at h
+      · cases h
+      · split at h
+        · next hc =>
+          split at h
+          · cases h
+          · next hk =>
+            cases h
+            have hk' : k = 0 := by simpa using hk
+            subst hk'
+            simp only [Bool.and_eq_true, beq_iff_eq] at hc
+            obtain ⟨hN, h0⟩ := hc
+            subst hN h0
+            refine ⟨by simp [WT], ?_, by simp⟩
+            simp [serialize, hb]
+        · next hc =>
+          cases hdo : deserOpt opts (optIndex hasNone sel) s' k with
+          | none => simp [hdo] at h
+          | some p =>
+            obtain ⟨v', s2⟩ := p
+            simp only [hdo, Option.map_some, Option.some.injEq, Prod.mk.injEq] at h
+            obtain ⟨rfl, rfl⟩ := h
+            obtain ⟨hw, hser, hrest⟩ := deserOpt_sound opts hfs _ s' k v' s2 hs hdo
+            refine ⟨?_, ?_, hrest⟩
+            · simp only [WT, hc, Bool.false_eq_true, if_false]
+              exact hw
+            · simp only [serialize, hc, Bool.false_eq_true, if_false, hser, hb]
+
+/-! ## the main theorem -/
+
+mutual
+theorem sound_all : (t : Ty) → DecSound t (deser t)
+  | .uint nb => sound_uint nb
+  | .bool => sound_bool
+  | .bitvector n => sound_bitvector n
+  | .bitlist lim => sound_bitlist lim
+  | .bytevector n => sound_bytevector n
+  | .bytelist lim => sound_bytelist lim
+  | .vector et n => sound_vector et n (sound_all et)
+  | .list et lim => sound_list et lim (sound_all et)
+  | .container fs => sound_container fs (sound_all_list fs)
+  | .union hasNone opts => sound_union hasNone opts (sound_all_list opts)
+theorem sound_all_list : (fs : List Ty) → ∀ t ∈ fs, DecSound t (deser t)
+  | [] => fun _ h => nomatch h
+  | t :: ts => fun t' h =>
+    match List.mem_cons.1 h with
+    | .inl e => e ▸ sound_all t
+    | .inr h' => sound_all_list ts t' h'
+end
+
+/-- **C09/C10.**  Whenever decoding succeeds the result is a valid value of the type, re-encoding
+    reproduces exactly the consumed input bytes, and exactly `scope` bytes are consumed.
+    (The well-formedness hypothesis is not needed by the proof: see `sound_all`.) -/
+theorem sound (t : Ty) (_hwf : t.wf = true) (s : Stream) (scope : Nat) (v : Val) (rest : Stream)
+    (hs : scope ≤ s.length) (h : Impl.deser t s scope = some (v, rest)) :
+    WT t v = true ∧ Spec.serialize t v = s.take scope ∧ rest = s.drop scope :=
+  sound_all t s scope v rest hs h
+
+theorem decode_bytes_sound (t : Ty) (hwf : t.wf = true) (b : List UInt8) (v : Val) (rest : Stream)
+    (h : Impl.deser t b b.length = some (v, rest)) :
+    WT t v = true ∧ Spec.serialize t v = b ∧ rest = [] := by
+  obtain ⟨h1, h2, h3⟩ := sound t hwf b b.length v rest (Nat.le_refl _) h
+  refine ⟨h1, ?_, ?_⟩
+  · rw [h2, List.take_length]
+  · rw [h3, List.drop_length]
+
+/-- no two distinct byte strings decode to the same value -/
+theorem injective (t : Ty) (hwf : t.wf = true) (b1 b2 : List UInt8) (v : Val) (r1 r2 : Stream)
+    (h1 : Impl.deser t b1 b1.length = some (v, r1))
+    (h2 : Impl.deser t b2 b2.length = some (v, r2)) : b1 = b2 := by
+  rw [← (decode_bytes_sound t hwf b1 v r1 h1).2.1, ← (decode_bytes_sound t hwf b2 v r2 h2).2.1]
 
 end Rmk.DecodeSound
